@@ -179,6 +179,9 @@ func (o *wireOrigin) serve(c net.Conn, id int64) {
 			if werr != nil {
 				return
 			}
+			if kind == "earlypart" && j == 0 {
+				time.Sleep(3 * time.Millisecond) // the caller reads piece 1 and closes meanwhile
+			}
 			if kind == "slow" || j%2 == 1 {
 				time.Sleep(time.Duration(o.delay.Intn(3)) * 150 * time.Microsecond)
 			}
@@ -226,7 +229,7 @@ func phaseWire(cr *childResult, seed uint64, quick bool) {
 		defer o.close()
 		origins = append(origins, o)
 	}
-	kinds := []string{"get", "get", "post", "head", "big", "close", "abort", "early", "fast", "multi", "slow", "slow"}
+	kinds := []string{"get", "get", "post", "head", "big", "close", "abort", "early", "earlypart", "fast", "multi", "slow", "slow"}
 	var seq atomic.Int64
 	for round := 0; round < rounds; round++ {
 		cfg := replayCfg{
@@ -296,7 +299,10 @@ func phaseWire(cr *childResult, seed uint64, quick bool) {
 				}
 			}
 		}()
-		wg.Wait()
+		if !waitOrStall(&wg, 100*time.Second) {
+			stallExit(cr, hk.Failure{Sig: "stall:wire", What: "callers of an HTTP/1.1 round (raw origin) are still blocked after 100 s: requests hang for ever",
+				Input: map[string]interface{}{"round": roundID, "cfg": cfg}})
+		}
 		close(stop)
 		bg.Wait()
 		cr.count(fmt.Sprintf("wire.maxconnsperhost=%d", cfg.MaxHost))
@@ -327,9 +333,9 @@ func phaseWire(cr *childResult, seed uint64, quick bool) {
 				prev := l[i-1]
 				if prev.hasBody && prev.complete && prev.endSeq > ob.gotSeq {
 					cr.fail(hk.Failure{Sig: "exclusive:wire:handed-over-before-body-consumed", What: "an HTTP/1.1 connection was handed to the next request before the previous caller had started the read that finished its response body",
-						Input:  map[string]interface{}{"round": roundID, "cfg": cfg, "conn": cid, "previous": prev.tag, "next": ob.tag},
-						Got:    map[string]int64{"next.GotConn": ob.gotSeq, "previous.finalReadStarted": prev.endSeq},
-						Want:   "next.GotConn > previous.finalReadStarted"})
+						Input: map[string]interface{}{"round": roundID, "cfg": cfg, "conn": cid, "previous": prev.tag, "next": ob.tag},
+						Got:   map[string]int64{"next.GotConn": ob.gotSeq, "previous.finalReadStarted": prev.endSeq},
+						Want:  "next.GotConn > previous.finalReadStarted"})
 				}
 				if prev.srvConn != "" && ob.srvConn != "" && (prev.srvConn != ob.srvConn || ob.serial <= prev.serial) {
 					cr.fail(hk.Failure{Sig: "serial:wire:order", What: "per-connection request serial numbers seen by the callers do not follow the order in which the connection was handed out",
@@ -434,6 +440,9 @@ func wireRequest(c *req.Client, seq *atomic.Int64, base, tag, kind string, lr *h
 	var lastData int64
 	if kind == "early" {
 		limit = len(tag) + 3
+	}
+	if kind == "earlypart" {
+		limit = len(chunksOf(tag, kind)[0]) // exactly the first piece: nothing stays buffered
 	}
 	for {
 		if limit >= 0 && sb.Len() >= limit {
